@@ -3,6 +3,7 @@
 package selx
 
 import (
+	"context"
 	"encoding/json"
 	"fmt"
 	"strconv"
@@ -95,13 +96,21 @@ func toSpec(ssb builder.SelectorSpecBuilder, s refsel.Sel) builder.SelectorSpec 
 
 // Config returns a traversal configuration over the realised graph.
 func Config(r *graph.Real) *traversal.Config {
-	return &traversal.Config{
+	cfg := &traversal.Config{
 		LinkSystem: r.LSys,
 		LinkTargetNodePrototypeChooser: func(datamodel.Link, linking.LinkContext) (datamodel.NodePrototype, error) {
 			return basicnode.Prototype.Any, nil
 		},
 	}
+	// callers pass fully populated and partly defaulted configurations alike: the context is set for graphs
+	// with an odd number of blocks (a deterministic function of the case) and left to the default otherwise
+	if r.Mem != nil && len(r.Mem.Bag)%2 == 1 {
+		cfg.Ctx = context.WithValue(context.Background(), ctxKey{}, "verif")
+	}
+	return cfg
 }
+
+type ctxKey struct{}
 
 // Collected is what a real walk reported.
 type Collected struct {
